@@ -23,6 +23,7 @@ META = {
     "bounds": {
         "quick": "N in {16,24,33,64}; 4 schedulers; windows kaiser60/kaiser200/hann/np.kaiser/scipy kaiser/custom callable/custom callable with interior zeros and negative taps; orders -1..2; backends numba,numpy (+cuda-sim on a reduced lattice); olap default/0/0.5; (Jdes,Kdes) in {(5,2),(20,10)}; bmin {1,2}; Lmin {1,4}; auto+cross; records id1/id2 + seeded",
         "thorough": "adds N in {100,257}, records id3/id4",
+        "large": "one N=4096 plan with > 2000 bins per backend and mode (every bin checked)",
     },
     "assumptions": ["reference window for Kaiser: DFT-even I0 definition with beta = alpha(psll)*pi, alpha from the published polynomial",
                     "tolerances: derived rounding bound of the recurrence (see C01)"],
@@ -46,6 +47,12 @@ def shards(tier, seed):
             for order in (-1, 0, 1, 2):
                 out.append({"N": N, "sched": sch, "win": "kaiser200", "backend": "cuda", "seed": seed, "tier": tier,
                             "orders": [order]})
+    # one plan with more than 2000 bins (linear regime: Jdes far above N/2) per backend and mode
+    for backend in ("numba", "numpy"):
+        for mode in ("auto", "cross"):
+            out.append({"N": 4096, "sched": "ltf", "win": "hann", "backend": backend, "seed": seed, "tier": tier,
+                        "case": {"N": 4096, "sched": "ltf", "win": "hann", "backend": backend, "order": 0, "olap": 0.0, "Jdes": 6000,
+                                 "Kdes": 1, "bmin": 1.0, "Lmin": 1, "mode": mode, "rx": "id1", "ry": "id3", "seed": seed, "light": True}})
     out.sort(key=lambda s: -s["N"] * (30 if s["backend"] == "cuda" else 1))
     return pairhist.shards_for(PROPERTY) + out
 
@@ -63,7 +70,7 @@ def run_shard(shard):
             raise RuntimeError(f"cuda-sim worker failed rc={p.returncode}\n{p.stderr[-3000:]}")
         return json.loads(p.stdout.splitlines()[-1])
     if "case" in shard:
-        return _one(shard["case"], full=True)
+        return _one(shard["case"], full=not shard["case"].get("light"))
     ana.quiet()
     N, sch, win, backend, seed = shard["N"], shard["sched"], shard["win"], shard["backend"], shard["seed"]
     cuda = backend == "cuda"
@@ -82,8 +89,8 @@ def run_shard(shard):
             orders, olaps, jk, bmins, lmins, ("auto", "cross"), recs):
         case = {"N": N, "sched": sch, "win": win, "backend": backend, "order": order, "olap": olap, "Jdes": J,
                 "Kdes": K, "bmin": bmin, "Lmin": Lmin, "mode": mode, "rx": rx, "ry": ry, "seed": seed}
-        # single-bin requests and bands are exercised on a fixed sub-lattice (every 4th point)
-        r = _one(case, full=(idx % 4 == 0) and not cuda, light_single=cuda)
+        # single-bin requests for every bin and all band pairs on every 8th lattice point; single-bin requests for the first and last bin on every other 8th
+        r = _one(case, full=(idx % 8 == 0) and not cuda, light_single=cuda or (idx % 8 == 4))
         idx += 1
         tot["evals"] += r["evals"]
         tot["nontrivial"] += r["nontrivial"]
@@ -149,6 +156,8 @@ def _one(case, full=True, light_single=False):
         if not (abs(rf["S2"][j] - s2) <= 1e-11 * s2 + 1e-300):
             bad.append("S2")
         if bad:
+            if nf > 1024:
+                bad = [f"nf>{1024}"] + bad
             out["failures"].append(_mk(case, "bin/" + "+".join(bad),
                                        f"bin {j} f={pf['f'][j]!r} L={L} D={pf['D'][j].tolist()}: got {got} S12={rf['S12'][j]!r} S2={rf['S2'][j]!r}; reference {ref} (sum w)^2={s1 * s1!r} sum w^2={s2!r} tol {tol}"))
             break
